@@ -544,10 +544,17 @@ class _OpChain(_CombinedOperator):
         from ..multi_domain import MultiDomain
         if not isinstance(self._domain, MultiDomain):
             return None, self
+        from .energy_operators import LikelihoodEnergyOperator
         newop = None
         for op in reversed(self._ops):
             c_inp, t_op = op.simplify_for_constant_input(c_inp)
-            newop = t_op if newop is None else op(newop)
+            if newop is None:
+                newop = t_op
+            elif isinstance(t_op, LikelihoodEnergyOperator):
+                # keep likelihoods likelihoods (transformation, residuals)
+                newop = t_op @ newop
+            else:
+                newop = _OpChain.make((t_op, newop))
         return c_inp, newop
 
     def __repr__(self):
